@@ -114,12 +114,16 @@ def _case(draw, seeds):
         return {"gen": which, "files": [[base, "src/a.mamba"]], "dir": "src", "fault": None, "base": base}
     text, line, kind = inj
     nfiles = draw(st.sampled_from([1, 1, 2, 3]))
+    crlf = draw(st.integers(0, 4)) == 0
+    if crlf:
+        # the same file with CRLF line ends: line k is still line k
+        text = text.replace("\r\n", "\n").replace("\n", "\r\n")
     files = [[text, "src/faulty.mamba"]]
     others = ["def good1 := 1\nprint(good1)\n", "class Good2(def g2: Int)\ndef og2 := Good2(2)\nprint(og2.g2)\n"]
     for k in range(nfiles - 1):
         files.insert(draw(st.integers(0, len(files))), [others[k], "src/sub/ok%d.mamba" % k])
     return {"gen": which, "files": files, "dir": "src", "fault": {"line": line, "kind": kind, "path": "src/faulty.mamba"},
-            "base": base}
+            "base": base, "crlf": crlf}
 
 
 CATALOGUE = [
@@ -216,6 +220,8 @@ class C19:
         stats.inc("rejected")
         if fault:
             stats.inc("fault:" + fault["kind"])
+            if case.get("crlf"):
+                stats.inc("fault_in_crlf_file")
         diags = r["err"]
         if not diags or not all(isinstance(d, str) and d.strip() for d in diags):
             return {"what": "rejection without (non-empty) diagnostics", "diagnostics": diags}
